@@ -250,7 +250,9 @@ func checkC02(c *Check) {
 				if !okP {
 					// the one sound shortcut: the request path holds no '%' at all (every captured value is a
 					// piece of the path, and PathUnescape is the identity on %-free text)
-					fromPath := func(v ssa.Value) bool { return derivesFrom(v, vParam(m, 1), nil) && isStringT(v.Type()) }
+					// the whole path: the parameter itself or its form without leading slashes (what the matcher is
+					// given); a piece of it (path[1:], a segment) says nothing about the rest
+					fromPath := vOr(vParam(m, 1), vTrimLeftSlash(vParam(m, 1)))
 					isPct := func(v ssa.Value) bool {
 						cst, ok := strip(v).(*ssa.Const)
 						if !ok || cst.Value == nil {
